@@ -228,6 +228,9 @@ func c06R1(c *Ctx) {
 			if n, isC := constInt(b.Y); isC {
 				cmpSet[n] = true
 			}
+			if n, isC := constInt(b.X); isC {
+				cmpSet[n] = true
+			}
 		}
 	})
 	c.check(lit && cmpSet[':'] && cmpSet['.'] && cmpSet['0'] && cmpSet['9'], "relay/suffix-after-[0-9:.]", c.pos(ars.Pos()), "'#R' is inserted after the run of [0-9:.] characters, i.e. after every regexp group", "the relay suffix is no longer inserted after the [0-9:.] run")
